@@ -150,3 +150,152 @@ def run(ctx, rep):
         if not ok:
             rep.violation('K4', vkey('K4', EX.name, 'extent', ''), EX.loc(EX.span),
                           'an extent is not offset_from_cluster(cluster) clipped to the bytes left in the file')
+
+
+# ---------------------------------------------------------------------------------------------
+# K5  a setter of the cached directory entry stores every field its getter reads, on every path
+
+ENTRY = 'fatfs::dir_entry::DirFileEntryData::'
+ACCESSOR_PAIRS = [('first_cluster', 'set_first_cluster'), ('size', 'set_size'), ('created', 'set_created'),
+                  ('accessed', 'set_accessed'), ('modified', 'set_modified')]
+
+
+def _self_fields(place):
+    """field names reached through `*self` in a place (param 1)"""
+    if place['l'] != 1:
+        return []
+    return [e.get('n') for e in place['p'] if 'f' in e and e.get('n') is not None][:1]
+
+
+def _fat_test(fn, bi, deps):
+    """(kind, {truth value: [targets]}) when the switch at bi tests the FAT-type parameter, else None"""
+    from analyses import switch_source, nonzero_targets, zero_targets
+    from model import op_place
+    t = fn.blocks[bi]['term']
+    src = switch_source(fn, bi)
+    if not src:
+        return None
+    fat_params = {i for i in range(1, fn.argc + 1)
+                  if (fn.local_ty(i) or {}).get('k') == 'adt' and fn.local_ty(i).get('path', '').endswith('::FatType')}
+    if not fat_params:
+        return None
+    if src['kind'] == 'call' and (src.get('callee') or '') in ('core::cmp::PartialEq::eq', 'core::cmp::PartialEq::ne'):
+        toks = set()
+        for a in src['term']['args']:
+            toks |= deps.of_operand(a)
+        if any(('param', i) in toks for i in fat_params):
+            eq = src['callee'].endswith('::eq')
+            return 'eq', {eq: nonzero_targets(t), (not eq): zero_targets(t)}
+    if src['kind'] == 'discr' and src['place']['l'] in fat_params and not src['place']['p']:
+        arms = {('v', v): [tg] for v, tg in t['targets']}
+        arms[('v', 'other')] = [t['otherwise']]
+        return 'discr', arms
+    return None
+
+
+def _paths(fn, collect, limit=400):
+    """acyclic entry->return paths: [(outcomes, set of collected field names)]"""
+    deps = Deps(fn)
+    tests = {bi: _fat_test(fn, bi, deps) for bi in fn.reachable() if fn.blocks[bi]['term']['k'] == 'switch'}
+    out = []
+    stack = [(0, (), frozenset(), frozenset())]
+    n = 0
+    while stack:
+        b, outc, got, seen = stack.pop()
+        n += 1
+        if n > 20000 or len(out) > limit:
+            return None
+        if b in seen:
+            continue
+        seen = seen | {b}
+        got = got | collect(fn, b)
+        t = fn.blocks[b]['term']
+        if t['k'] == 'return':
+            out.append((dict(outc), got))
+            continue
+        ft = tests.get(b)
+        if ft:
+            kind, arms = ft
+            for truth, tgts in arms.items():
+                for tg in tgts:
+                    stack.append((tg, outc + ((kind, truth), ), got, seen))
+            continue
+        for s in fn.succ(b):
+            if not fn.blocks[s].get('cleanup'):
+                stack.append((s, outc, got, seen))
+    return out
+
+
+def _reads(fn, b):
+    from model import places_read_by_rvalue, op_place
+    out = set()
+    blk = fn.blocks[b]
+    for s in blk['stmts']:
+        if s['k'] == 'assign':
+            for pl in places_read_by_rvalue(s['rv']):
+                out |= set(_self_fields(pl))
+    t = blk['term']
+    for o in (t.get('args') or []):
+        pl = op_place(o)
+        if pl is not None:
+            out |= set(_self_fields(pl))
+    return frozenset(out)
+
+
+def _writes(fn, b):
+    out = set()
+    for s in fn.blocks[b]['stmts']:
+        if s['k'] == 'assign' and s['lhs']['p']:
+            out |= set(_self_fields(s['lhs']))
+    return frozenset(out)
+
+
+def _compatible(o1, o2):
+    """can a getter path and a setter path be taken for the same FAT type?  None when the two use tests that cannot be
+    related (one compares, the other matches on the variant)"""
+    if not o1 or not o2:
+        return True
+    if set(o1) != set(o2):
+        return None
+    return all(o1[k] == o2[k] for k in o1)
+
+
+def run_accessors(ctx, rep):
+    facts = ctx.facts
+    for g, s_ in ACCESSOR_PAIRS:
+        G, S = facts.fns.get(ENTRY + g), facts.fns.get(ENTRY + s_)
+        if G is None or S is None:
+            rep.machinery('ANCHOR-MISSING %s%s / %s' % (ENTRY, g, s_))
+            continue
+        gp, sp = _paths(G, _reads), _paths(S, _writes)
+        if gp is None or sp is None:
+            rep.notes.append('K5: too many paths in %s / %s, pair not decided' % (g, s_))
+            continue
+        bad = None
+        undecided = False
+        for so, sw in sp:
+            for go, gr in gp:
+                c = _compatible(go, so)
+                if c is None:
+                    undecided = True
+                    continue
+                if c and not gr <= sw:
+                    bad = (so, sorted(gr - sw), sorted(sw))
+        if undecided and not bad:
+            rep.notes.append('K5: getter and setter %s / %s test the FAT type in unrelated ways, pair not decided' % (g, s_))
+        rep.oblige('K5', ENTRY + s_, ok=bad is None, nontrivial=True,
+                   sample={'getter': ENTRY + g, 'setter': ENTRY + s_, 'getter_paths': len(gp), 'setter_paths': len(sp),
+                           'rule': 'on every path the setter stores every field the getter reads for the same FAT type'})
+        if bad:
+            rep.violation('K5', vkey('K5', ENTRY + s_, 'covers-getter', ''), S.loc(S.span),
+                          '`%s` has a path (%s) that stores only %s although `%s` reads %s for the same FAT type: the part that '
+                          'is not stored keeps its old value (a stale half of a cluster number, a stale time byte)' %
+                          (s_, bad[0] or 'unconditional', bad[2], g, bad[1] + bad[2]))
+
+
+_run_k1 = run
+
+
+def run(ctx, rep):
+    _run_k1(ctx, rep)
+    run_accessors(ctx, rep)
